@@ -55,20 +55,20 @@ fn construct(kind: usize, x: bool, y: bool) -> (u32, bool, bool, AVP) {
     match kind {
         0 => {
             let v = t::FramingCapabilities::new(x, y);
-            (glue::bitmask_word(&v), v.is_async_framing_supported(), v.is_sync_framing_supported(), AVP::FramingCapabilities(v))
+            (glue::bitmask_word_avp(&AVP::FramingCapabilities(v)), v.is_async_framing_supported(), v.is_sync_framing_supported(), AVP::FramingCapabilities(v))
         }
         1 => {
             // new(digital_access_supported, analog_access_supported)
             let v = t::BearerCapabilities::new(x, y);
-            (glue::bitmask_word(&v), v.is_digital_access_supported(), v.is_analog_access_supported(), AVP::BearerCapabilities(v))
+            (glue::bitmask_word_avp(&AVP::BearerCapabilities(v)), v.is_digital_access_supported(), v.is_analog_access_supported(), AVP::BearerCapabilities(v))
         }
         2 => {
             let v = t::BearerType::new(x, y);
-            (glue::bitmask_word(&v), v.is_analog_request(), v.is_digital_request(), AVP::BearerType(v))
+            (glue::bitmask_word_avp(&AVP::BearerType(v)), v.is_analog_request(), v.is_digital_request(), AVP::BearerType(v))
         }
         _ => {
             let v = t::FramingType::new(x, y);
-            (glue::bitmask_word(&v), v.is_analog_request(), v.is_digital_request(), AVP::FramingType(v))
+            (glue::bitmask_word_avp(&AVP::FramingType(v)), v.is_analog_request(), v.is_digital_request(), AVP::FramingType(v))
         }
     }
 }
@@ -80,20 +80,20 @@ fn from_wire(kind: usize, w: u32) -> Option<(u32, bool, bool, AVP)> {
     Some(match kind {
         0 => {
             let v = t::FramingCapabilities::try_read(&mut r).ok()?;
-            (glue::bitmask_word(&v), v.is_async_framing_supported(), v.is_sync_framing_supported(), AVP::FramingCapabilities(v))
+            (glue::bitmask_word_avp(&AVP::FramingCapabilities(v)), v.is_async_framing_supported(), v.is_sync_framing_supported(), AVP::FramingCapabilities(v))
         }
         1 => {
             // RFC 2661 4.4.3: A (analog) is the first-listed flag = bit 6, D (digital) = bit 7
             let v = t::BearerCapabilities::try_read(&mut r).ok()?;
-            (glue::bitmask_word(&v), v.is_analog_access_supported(), v.is_digital_access_supported(), AVP::BearerCapabilities(v))
+            (glue::bitmask_word_avp(&AVP::BearerCapabilities(v)), v.is_analog_access_supported(), v.is_digital_access_supported(), AVP::BearerCapabilities(v))
         }
         2 => {
             let v = t::BearerType::try_read(&mut r).ok()?;
-            (glue::bitmask_word(&v), v.is_analog_request(), v.is_digital_request(), AVP::BearerType(v))
+            (glue::bitmask_word_avp(&AVP::BearerType(v)), v.is_analog_request(), v.is_digital_request(), AVP::BearerType(v))
         }
         _ => {
             let v = t::FramingType::try_read(&mut r).ok()?;
-            (glue::bitmask_word(&v), v.is_analog_request(), v.is_digital_request(), AVP::FramingType(v))
+            (glue::bitmask_word_avp(&AVP::FramingType(v)), v.is_analog_request(), v.is_digital_request(), AVP::FramingType(v))
         }
     })
 }
